@@ -7,4 +7,4 @@ CONSTANTS
   StepDeltas = {1, 60, 7200}
   Prefix = 4
   Now = 1790000000
-INVARIANTS HonestAccepted MutantsDecided HeaderRulesEquiv SkipPowDecided OptionsIrrelevant ReadDecided ChainOK
+INVARIANTS HonestAccepted MutantsDecided HeaderRulesEquiv SkipPowDecided OptionsIrrelevant WireDecided ReadDecided ChainOK
